@@ -10,6 +10,7 @@
 #[path = "/repo/src/analyzers_v2/mod.rs"] pub mod analyzers_v2;
 
 mod common;
+mod treedump;
 include!(concat!(env!("OUT_DIR"), "/engines.rs"));
 
 use std::io::{BufRead, Write};
